@@ -134,6 +134,7 @@ type runResult struct {
 	Panicked string
 	Insts    int
 	Over     bool
+	GoPanic  bool // the error is a Go panic that PCall converted (ApiErrorPanic), not an error raised by the interpreter
 }
 
 var hangs int
@@ -142,7 +143,13 @@ var hangs int
 // bounds Lua-level loops; a watchdog bounds the time spent inside single instructions (the run is
 // abandoned in its goroutine and reported; after three such hangs nothing more is executed).
 func runTraced(fp *lua.FunctionProto, root *P, budget int, setup func(L *lua.LState)) (tr *tracer, res runResult) {
-	L := lua.NewState(lua.Options{RegistrySize: 1024 * 20, CallStackSize: 256})
+	return runTracedWith(fp, root, budget, setup, lua.Options{RegistrySize: 1024 * 20, CallStackSize: 256})
+}
+
+// runTracedWith: the same on a state with the given options (twin.go runs every generated program
+// also on a state whose registry and call stack start small and grow).
+func runTracedWith(fp *lua.FunctionProto, root *P, budget int, setup func(L *lua.LState), opts lua.Options) (tr *tracer, res runResult) {
+	L := lua.NewState(opts)
 	if setup != nil {
 		setup(L)
 	}
@@ -165,6 +172,9 @@ func runTraced(fp *lua.FunctionProto, root *P, budget int, setup func(L *lua.LSt
 		L.Push(L.NewFunctionFromProto(fp))
 		if err := L.PCall(0, lua.MultRet, nil); err != nil {
 			r.Err = trunc(err.Error(), 300)
+			if ae, ok := err.(*lua.ApiError); ok && ae.Type == lua.ApiErrorPanic {
+				r.GoPanic = true
+			}
 		} else {
 			for i := base + 1; i <= L.GetTop() && i <= base+12; i++ {
 				r.Results = append(r.Results, trunc(L.Get(i).String(), 40))
